@@ -162,8 +162,9 @@ func evalInv(c *InvCase) (string, string) {
 			return "C08/hash-depends-on-spelling", fmt.Sprintf("CalculateModelMultihash(%q) = %s (%v), want %s", ev.Trunc(string(in), 300), mh, err, c.WantModelMH)
 		}
 		// as a generic Go value too
+		// (not for literals that encoding/json - used here by the harness itself - misreads)
 		var g interface{}
-		if json.Unmarshal(in, &g) == nil {
+		if !hasLongNumber(in) && json.Unmarshal(in, &g) == nil {
 			mh2, err2 := hashing.CalculateModelMultihash(g, uint(c.Code))
 			if err2 != nil || mh2 != c.WantModelMH {
 				return "C08/hash-depends-on-spelling", fmt.Sprintf("CalculateModelMultihash(decoded %q) = %s (%v), want %s", ev.Trunc(string(in), 300), mh2, err2, c.WantModelMH)
@@ -224,9 +225,31 @@ func TestReserializationInvariance(t *testing.T) {
 			return map[string]string{"request": ev.Trunc(string(c.Request), 240), "jwk": ev.Trunc(string(c.JWK), 160), "suffix": c.WantSuffix}
 		})
 		if kind != "" {
-			ev.Fail(t, chkInvariance, kind, kind, c, "%s", msg)
+			sig := kind
+			if (kind == "C08/valid-create-rejected" || kind == "C08/suffix-depends-on-spelling") && hasLongNumber(c.Request) {
+				// known finding (known-findings.json): the request is decoded with encoding/json, which misreads number
+				// literals of more than 800 digits
+				sig = "C08/request-number-literal-over-800-digits"
+			}
+			ev.Fail(t, chkInvariance, kind, sig, c, "%s", msg)
 		}
 	})
+}
+
+// hasLongNumber reports a run of more than 300 characters from the number alphabet.
+func hasLongNumber(b []byte) bool {
+	run := 0
+	for _, c := range b {
+		if (c >= '0' && c <= '9') || c == '.' || c == '-' || c == '+' || c == 'e' || c == 'E' {
+			run++
+			if run > 300 {
+				return true
+			}
+		} else {
+			run = 0
+		}
+	}
+	return false
 }
 
 // ---- (2) IsValidModelMultihash accepts iff the multihash is the hash of the canonical form ---------------
